@@ -199,6 +199,15 @@ func (t *T) Served(addr string) http.Handler { return nil }
 // while waiting (engine; natively a plain Quiesce).
 func (t *T) QuiesceTimers(n int) { t.Quiesce() }
 
+// YieldOnFS: a goroutine (other than the harness) lets every other runnable
+// goroutine run after each of its file-system calls (engine only).
+func (t *T) YieldOnFS(on bool) {}
+
+// YieldOnLock selects the engine's third deterministic schedule: a goroutine
+// (other than the harness) that is about to take a mutex lets every other
+// runnable goroutine run first (engine only).
+func (t *T) YieldOnLock(on bool) {}
+
 // YieldOnRead selects the engine's second deterministic schedule: a goroutine
 // that reads file content (a hash pass) lets every other runnable goroutine
 // run first (engine only).
